@@ -118,7 +118,7 @@ def _welford(run, prog, W):
             raise AnalysisError(f"WelfordTracker.{name} reads state outside the analysed schema: {sorted(unknown)}")
         cand = resolve_minmax(cand, N_, 1)
         _compare(run, "INDUCT", f"Welford.step.{name}", cand, post_ref[kind], path, line, fn,
-                 f"after update at n>=1, {name} must equal the closed form of {kind}")
+                 f"after update at n>=1, {name} must equal the closed form of {kind}", bounds={N_: 1})
     # ---- base case: first update from the constructor state ----------------------------------
     init_map = {("field0", f): t for f, t in init_state.items()}
     one_ref = refs(c(1), V_, op("*", V_, V_))
@@ -143,9 +143,9 @@ def _welford(run, prog, W):
     _compare(run, "COUNT", "Welford.N", cand, op("+", N_, c(1)), path, line, fn, "N must grow by exactly one per update")
 
 
-def _compare(run, rule, inst, cand, ref, path, line, fn, msg):
+def _compare(run, rule, inst, cand, ref, path, line, fn, msg, bounds=None):
     try:
-        ok, info = identical(cand, ref, atoms=ATOMS)
+        ok, info = identical(cand, ref, atoms=ATOMS, bounds=bounds)
     except OutOfDomain as e:
         raise AnalysisError(f"{inst}: term leaves the rational-function domain: {e}")
     run.check(ok, rule, inst, f"{path}:{line}", fn, f"{inst}:{ir.show_nl(cand)[:200]}",
